@@ -56,8 +56,12 @@ Definition writer_ok (tbl : list ninfo) (D0 : fp) (obs : list (node * list node)
    members denote pairwise disjoint bits, i.e. the net drives no bit twice ---- *)
 Fixpoint pairwise_disjoint (l : fp) : bool :=
   match l with [] => true | a :: r => forallb (fun b => negb (ivl_overlap a b)) r && pairwise_disjoint r end.
-Definition net_disjoint_ok (tbl : list ninfo) (obs : list (node * list node)) : bool :=
-  forallb (fun wn => pairwise_disjoint (reader_ivls tbl wn)) obs.
+Definition net_shape_ok (tbl : list ninfo) (wn : node * list node) : bool :=
+  pairwise_disjoint (reader_ivls tbl wn) &&
+  (const_n tbl (fst wn) ||
+   forallb (fun r => negb (ivl_overlap (ivl_n tbl (fst wn)) r) &&
+                     (ihi r - ilo r <=? ihi (ivl_n tbl (fst wn)) - ilo (ivl_n tbl (fst wn)))%Z) (reader_ivls tbl wn)).
+Definition net_disjoint_ok (tbl : list ninfo) (obs : list (node * list node)) : bool := forallb (net_shape_ok tbl) obs.
 
 (* ---- the least-fixed-point reading of "legitimately driven" ---- *)
 Inductive driven (tbl : list ninfo) (D0 : fp) (obs : list (node * list node)) : ivl -> Prop :=
@@ -68,3 +72,13 @@ Inductive driven (tbl : list ninfo) (D0 : fp) (obs : list (node * list node)) : 
 
 Definition justified (tbl : list ninfo) (D0 : fp) (obs : list (node * list node)) (w : node) : Prop :=
   const_n tbl w = true \/ exists d, driven tbl D0 obs d /\ ivl_overlap (ivl_n tbl w) d = true.
+
+(* ---- what a net does in simulation: the net block copies the writer's bits onto every reader, one reader after the
+   other (bit environment as in Sched: a bit is (root signal, index)) ---- *)
+Definition benv := bit -> bool.
+Definition copy_ivl (w r : ivl) (e : benv) : benv :=
+  fun v => if in_ivl v r then e (iroot w, (ilo w + (snd v - ilo r))%Z) else e v.
+Definition run_net (w : ivl) (rs : list ivl) (e : benv) : benv := fold_left (fun e r => copy_ivl w r e) rs e.
+(* reader r holds the writer's value *)
+Definition carries (w r : ivl) (e : benv) : Prop :=
+  forall k, (0 <= k < ihi r - ilo r)%Z -> e (iroot r, (ilo r + k)%Z) = e (iroot w, (ilo w + k)%Z).
